@@ -213,8 +213,36 @@ func (c *Ctx) evalParamAssume(vals map[string]bool, extra Assume) Assume {
 	cs := c.A.F("canStore")
 	return func(a *Atom) (bool, bool) {
 		// vals keys: "<paramIndex>:<directive>[.ok]"
+		val := a.Val
+		// an atom about a parameter of a helper of the evaluator is an atom about the evaluator's own parameter when every
+		// call site of the helper passes that parameter on
+		for hop := 0; hop < 3; hop++ {
+			hp, ok := val.(*ssa.Parameter)
+			if !ok || hp.Parent() == cs {
+				break
+			}
+			idx := paramIndex(hp.Parent(), hp)
+			var common ssa.Value
+			same := idx >= 0
+			for _, site := range c.P.Callers(hp.Parent()) {
+				arg := argForParam(site.Instr.Common(), hp.Parent(), idx)
+				if arg == nil {
+					same = false
+					break
+				}
+				arg = c.An.canon(arg)
+				if common != nil && common != arg {
+					same = false
+				}
+				common = arg
+			}
+			if !same || common == nil {
+				break
+			}
+			val = common
+		}
 		for i, p := range cs.Params {
-			if a.Val == p {
+			if val == p {
 				for _, cls := range []string{"rq.", "rs.", "up.", "mixed", "?"} {
 					if strings.HasPrefix(a.Key, cls) {
 						rest := a.Key[strings.Index(a.Key, ".")+1:]
